@@ -66,7 +66,12 @@ Definition refine_pow (A : option assum) (nb ne : expr) : dec :=
           match ie with
           | ENum m =>
               if negb (n_is_complex m) && negb (n_is_complex n) then
-                qb (is_positive A ib) (fun p => if p then DPos else DAbs)
+                qb (is_positive A ib) (fun p =>
+                  if p then DPos
+                  else match m with
+                       | NInt z => if Z.even z then DAbs else DKeep    (* x^k = abs(x)^k needs an even integer k *)
+                       | _ => DKeep
+                       end)
               else DKeep
           | _ => DKeep
           end
